@@ -70,8 +70,24 @@
    C08_declared_only_listed and C08_only_listed_holds (every oracle, filter, cache and history:
    no finding touches the event-type gate), C08_snapshot_only_binding, C08_partial_declared
    (every declaration = every pair of absent / any list, outside the two findings) and
-   C08_refuted_declared. *)
-From Verif Require Import Common Json C08_Model C08_Spec C08_Proofs.
+   C08_refuted_declared.
+
+   Results with SEVERAL outputs (C08_MergeProofs).  A jqFilter may output any number of values
+   of any kinds for an object (`.metadata.labels, .data`, `.a, .b, .c`, `.[]?`, `empty`), and
+   which of them are objects depends on the object's own state.  ApplyFilter merges the object
+   outputs ([glue]).  C08_merge_rule says what the merged object is - for every key the value
+   the LAST object output binding it gives ([last_out]; the specification's clause [fr_shows]
+   for the filterResult a snapshot shows) - and C08_merge_skips_nonobject /
+   C08_merge_only_objects / C08_merge_precedence / C08_merge_keeps_object_keys /
+   C08_merge_no_foreign_key / C08_merged_result_shows are its consequences for every sequence
+   of outputs.  C08_object_part_change_triggers: a change at some key of the part the object
+   outputs produce triggers (type listed) and the snapshot shows the new filterResult, whatever
+   null / scalar / array outputs stand before or after.  The finding F8 is narrowed to what it
+   is ([T_F8m]: two DIFFERING results of the history merge into the same object;
+   C08_F8m_narrower): C08_partial_merge / C08_partial_merge_declared prove P for every history
+   outside [T_F8m] and F16 (no canonicity assumption needed), C08_refuted_merge keeps the
+   witness. *)
+From Verif Require Import Common Json C08_Model C08_Spec C08_Proofs C08_MergeProofs.
 
 Definition C08_full_statement : Prop :=
   forall jq types filter h, oracle_canonical jq h ->
@@ -450,3 +466,102 @@ Example C08_filter_error_drops_change :
   map o_snapshot (model_obs jq_foo (mkConfig all3 true) h_F16)
   = [[(1%N, o_norep)]; [(1%N, o_norep)]; [(1%N, o_norep)]].
 Proof. split; vm_compute; reflexivity. Qed.
+
+(* ======== jqFilter results with several outputs of mixed kinds ======== *)
+
+(* THE MERGE RULE of jq.Filter.ApplyFilter, for every sequence of outputs and every key: the
+   merged object shows what the last object output that binds the key says *)
+Theorem C08_merge_rule : forall outs k, jget k (glue outs) = last_out k outs.
+Proof. exact glue_get. Qed.
+Print Assumptions C08_merge_rule.
+
+(* an output that is no object (null, scalar, array) changes nothing, wherever it stands *)
+Theorem C08_merge_skips_nonobject : forall pre v post,
+  is_object v = false -> glue (pre ++ v :: post) = glue (pre ++ post).
+Proof. exact glue_skips_nonobject. Qed.
+Print Assumptions C08_merge_skips_nonobject.
+
+Theorem C08_merge_only_objects : forall outs, glue outs = glue (List.filter is_object outs).
+Proof. exact glue_only_objects. Qed.
+Print Assumptions C08_merge_only_objects.
+
+(* order of precedence between object outputs: the later one wins, key by key *)
+Theorem C08_merge_precedence : forall pre m post k v,
+  last_binding k m = Some v ->
+  jget k (glue (pre ++ JObj m :: post))
+  = match last_out k post with Some w => Some w | None => Some v end.
+Proof. exact glue_precedence. Qed.
+Print Assumptions C08_merge_precedence.
+
+(* an object output's keys are in the projection whatever surrounds the output *)
+Theorem C08_merge_keeps_object_keys : forall pre m post k v,
+  last_binding k m = Some v -> jget k (glue (pre ++ JObj m :: post)) <> None.
+Proof. exact glue_keeps_object_keys. Qed.
+Print Assumptions C08_merge_keeps_object_keys.
+
+Theorem C08_merge_no_foreign_key : forall outs k,
+  ~ In k (out_keys outs) -> jget k (glue outs) = None.
+Proof. exact glue_no_foreign_key. Qed.
+Print Assumptions C08_merge_no_foreign_key.
+
+(* the merged object meets the specification's clause for the filterResult a snapshot shows *)
+Theorem C08_merged_result_shows : forall outs, fr_shows outs (glue outs) = true.
+Proof. exact glue_fr_shows. Qed.
+Print Assumptions C08_merged_result_shows.
+
+(* a change in the part produced by the object outputs is a change of the projection: the hook
+   is triggered with the current filterResult and the snapshot holds it *)
+Theorem C08_object_part_change_triggers : forall jq cfg c t id o cached k,
+  c_filter cfg = true -> t <> Deleted -> should_fire cfg t = true ->
+  c_get id c = Some cached -> apply_filter jq cfg (e_obj cached) = Some cached ->
+  snd (jq o) = false ->
+  last_out k (fst (jq (e_obj cached))) <> last_out k (fst (jq o)) ->
+  let e := mkEntry o (glue (fst (jq o))) (Some (glue (fst (jq o)))) in
+  handle jq cfg c t id o = (c_set id e c, Some (mkEvent t id e)) /\
+  fr_shows (fst (jq o)) (glue (fst (jq o))) = true.
+Proof. exact object_part_change_triggers. Qed.
+Print Assumptions C08_object_part_change_triggers.
+
+(* the narrowed trigger fires only where the old one fires *)
+Theorem C08_F8m_narrower : forall jq filter h,
+  oracle_canonical jq h -> T_F8m jq filter h = true -> T_F8 jq filter h = true.
+Proof. exact T_F8m_narrower. Qed.
+Print Assumptions C08_F8m_narrower.
+
+(* P for every history outside the narrowed trigger and F16: any number of outputs, any kinds *)
+Theorem C08_partial_merge : forall jq types filter h,
+  T_F8m jq filter h = false -> T_F16 jq filter h = false ->
+  P jq types filter h (model_obs jq (mkConfig types filter) h) = true.
+Proof. exact partial_merge. Qed.
+Print Assumptions C08_partial_merge.
+
+Theorem C08_partial_merge_declared : forall jq d filter listed (h : list dstep),
+  T_F8m jq filter (listed_steps listed ++ map change_of h) = false ->
+  T_F16 jq filter (listed_steps listed ++ map change_of h) = false ->
+  exists c0, load_existed jq (mkConfig (effective_types d) filter) listed [] = Some c0 /\
+    P_decl jq d filter listed (map change_of h)
+           (map to_obs (run_d jq (mkConfig (effective_types d) filter) c0 h)) = true.
+Proof. exact partial_merge_declared. Qed.
+Print Assumptions C08_partial_merge_declared.
+
+(* the F8 witness is inside the narrowed trigger too *)
+Theorem C08_refuted_merge : exists jq types filter h,
+  T_F8m jq filter h = true /\ T_F16 jq filter h = false /\
+  P jq types filter h (model_obs jq (mkConfig types filter) h) = false.
+Proof. exists jq_replicas, all3, true, h_F8. vm_compute. repeat split; reflexivity. Qed.
+Print Assumptions C08_refuted_merge.
+
+(* non-vacuity: `.metadata.labels, .data` on an object without labels ([null, {k:..}]); the old
+   trigger holds, the narrowed one does not; Added, re-delivery, data changes *)
+Example C08_multi_hyp_met :
+  T_F8 jq_labels_data true h_multi = true /\
+  T_F8m jq_labels_data true h_multi = false /\ T_F16 jq_labels_data true h_multi = false /\
+  map o_fired (model_obs jq_labels_data (mkConfig [Added; Modified; Deleted] true) h_multi)
+  = [[Added]; []; [Modified]].
+Proof. exact multi_hyp_met. Qed.
+
+Example C08_object_part_change_hyp_met :
+  let cached := mkEntry (o_data 1) (glue [JNull; JObj [(k_k, JNum 1)]]) (Some (glue [JNull; JObj [(k_k, JNum 1)]])) in
+  apply_filter jq_labels_data (mkConfig [Modified] true) (e_obj cached) = Some cached /\
+  last_out k_k (fst (jq_labels_data (e_obj cached))) <> last_out k_k (fst (jq_labels_data (o_data 2))).
+Proof. cbv zeta. split; [vm_compute; reflexivity | vm_compute; discriminate]. Qed.
